@@ -146,7 +146,7 @@ template <class G> struct C16 {
               ref::Vec res = residual(m, pts, &ok);
               // the right variant measures its stopping criterion in the world frame
               ref::Real kappa = 1;
-              if (r == FRIGHT) kappa = std::max((ref::Real)1, g.Adj(g.inv(vf::Mof(m))).cwiseAbs().maxCoeff());
+              if (r == FRIGHT) kappa = std::max((ref::Real)1, vf::maxabs(g.Adj(g.inv(vf::Mof(m)))));
               if (ok) close(g.difft(res, ref::Vec::Zero(g.DoF), lin), tol * kappa, "mean_is_stationary", key, "{" + vf::kv("m", vf::decvec(m.coeffs())) + "," + vf::kv("residual_mean_tangent", vf::decvec(res)) + "}");
               else ++R.skipped;
             }
@@ -158,7 +158,7 @@ template <class G> struct C16 {
               else { std::vector<G> p(pts.rbegin(), pts.rend()); perms.push_back(p); for (int s = 1; s < n; s += std::max(1, n / 4)) { std::vector<G> q(pts); std::rotate(q.begin(), q.begin() + s, q.end()); perms.push_back(q); } }
               ref::Real worst = 0;
               for (size_t p = 0; p < perms.size(); ++p) { G mp = call(r, perms[p]); worst = std::max(worst, dist(mp, Mm, lin)); }
-              close(worst, 2 * tol * std::max((ref::Real)1, (r == FRIGHT ? g.Adj(g.inv(Mm)).cwiseAbs().maxCoeff() : (ref::Real)1)), "mean_independent_of_order", key);
+              close(worst, 2 * tol * std::max((ref::Real)1, (r == FRIGHT ? vf::maxabs(g.Adj(g.inv(Mm))) : (ref::Real)1)), "mean_independent_of_order", key);
             }
             // equivariance
             for (size_t q = 0; q < gl.size(); ++q) {
@@ -167,8 +167,8 @@ template <class G> struct C16 {
               std::vector<G> lp, rp;
               for (int k = 0; k < n; ++k) { lp.push_back(gg * pts[k]); rp.push_back(pts[k] * gg); }
               ref::Real l2 = g.lin_scale_M(Mg.cwiseAbs() * Mm.cwiseAbs());
-              ref::Real kap = std::max((ref::Real)1, std::max(g.Adj(Mg).cwiseAbs().maxCoeff(), g.Adj(g.inv(Mg)).cwiseAbs().maxCoeff()));
-              if (r == FRIGHT) kap *= std::max((ref::Real)1, g.Adj(g.inv(Mm)).cwiseAbs().maxCoeff());
+              ref::Real kap = std::max((ref::Real)1, std::max(vf::maxabs(g.Adj(Mg)), vf::maxabs(g.Adj(g.inv(Mg)))));
+              if (r == FRIGHT) kap *= std::max((ref::Real)1, vf::maxabs(g.Adj(g.inv(Mm))));
               G ml = call(r, lp);
               close(dist(ml, Mg * Mm, l2), 2 * tol * kap, "mean_commutes_with_left_translation", key + ",g=" + gl[q].key);
               if (r != WEIGHTED) {
